@@ -70,3 +70,68 @@ package knx
 //@   ensures [foreign] res.Channel != conn.channel ==> err != nil && nsent(conn.ack) == old(nsent(conn.ack))
 //@   ensures [offered] nsent(conn.ack) > old(nsent(conn.ack)) ==> res.Channel == conn.channel && lastsent(conn.ack) == res && nsent(conn.ack) == old(nsent(conn.ack)) + 1
 //@   assigns nothing
+
+// ---------- C09: heartbeat, disconnect, reconnect ----------
+
+//@ func checkTunnelConfig(config TunnelConfig) (r TunnelConfig)
+//@   props C09
+//@   ensures [positive] r.ResendInterval > 0 && r.HeartbeatInterval > 0 && r.ResponseTimeout > 0
+//@   ensures [kept] (config.ResendInterval > 0 ==> r.ResendInterval == config.ResendInterval) && (config.HeartbeatInterval > 0 ==> r.HeartbeatInterval == config.HeartbeatInterval) && (config.ResponseTimeout > 0 ==> r.ResponseTimeout == config.ResponseTimeout)
+//@   ensures [flags] r.SendLocalAddress == config.SendLocalAddress && r.UseTCP == config.UseTCP
+//@   assigns nothing
+
+//@ func (conn *Tunnel) requestConnState(heartbeat <-chan knxnet.ErrCode) (state knxnet.ErrCode, err error)
+//@   props C09
+//@   ghost nsend lastsend sendsame sendclock nrecv lastrecv nticker ntickerstop nafter period lastticker.d lastafter.d
+//@   noterm
+//@   requires conn.sock != nil && conn.config.ResendInterval > 0
+//@   ensures [request] nsend(conn.sock) >= old(nsend(conn.sock)) + 1 && typeis(lastsend(conn.sock), *knxnet.ConnStateReq) && lastsend(conn.sock).(*knxnet.ConnStateReq).Channel == conn.channel && lastsend(conn.sock).(*knxnet.ConnStateReq).Status == 0 && lastsend(conn.sock).(*knxnet.ConnStateReq).Control == conn.control
+//@   ensures [identical] old(sendsame(conn.sock)) ==> sendsame(conn.sock)
+//@   ensures [answer] err == nil ==> nrecv(heartbeat) == old(nrecv(heartbeat)) + 1 && state == lastrecv(heartbeat)
+//@   ensures [noanswer] err != nil ==> nrecv(heartbeat) == old(nrecv(heartbeat))
+//@   ensures [timing] gcount("nafter") > old(gcount("nafter")) ==> gval("lastticker.d") == int64(conn.config.ResendInterval) && gval("lastafter.d") == int64(conn.config.ResponseTimeout)
+//@   assigns nothing
+//@   loop 0 invariant nsend(conn.sock) >= old(nsend(conn.sock)) + 1 && (old(sendsame(conn.sock)) ==> sendsame(conn.sock)) && nrecv(heartbeat) == old(nrecv(heartbeat))
+//@   loop 0 invariant typeis(lastsend(conn.sock), *knxnet.ConnStateReq) && lastsend(conn.sock).(*knxnet.ConnStateReq) == req
+//@   loop 0 invariant req.Channel == conn.channel && req.Status == 0 && req.Control == conn.control
+//@   loop 0 invariant gval("lastticker.d") == int64(conn.config.ResendInterval) && gval("lastafter.d") == int64(conn.config.ResponseTimeout) && gcount("nafter") > old(gcount("nafter"))
+//@   loop 0 assigns nothing
+//@   loop 0 ghost nsend lastsend sendsame sendclock nrecv lastrecv
+
+//@ func (conn *Tunnel) performHeartbeat(heartbeat <-chan knxnet.ErrCode, timeout chan<- struct{})
+//@   props C09
+//@   ghost
+//@   noterm
+//@   requires conn.sock != nil && conn.config.ResendInterval > 0 && !closed(timeout)
+//@   ensures [signal] nsent(timeout) > old(nsent(timeout)) ==> nsent(timeout) == old(nsent(timeout)) + 1 && (nrecv(heartbeat) == old(nrecv(heartbeat)) || lastrecv(heartbeat) != 0)
+//@   ensures [request] nsend(conn.sock) >= old(nsend(conn.sock)) + 1
+//@   assigns nothing
+
+//@ func (conn *Tunnel) handleConnStateRes(res *knxnet.ConnStateRes, heartbeat chan<- knxnet.ErrCode) (err error)
+//@   props C09
+//@   ghost nsent lastsent nspawn spawnarg nrecv lastrecv nafter period lastafter.d
+//@   requires res != nil && conn.config.ResendInterval > 0
+//@   ensures [foreign] res.Channel != conn.channel ==> err != nil && nsent(heartbeat) == old(nsent(heartbeat))
+//@   ensures [offered] nsent(heartbeat) > old(nsent(heartbeat)) ==> res.Channel == conn.channel && lastsent(heartbeat) == res.Status && nsent(heartbeat) == old(nsent(heartbeat)) + 1
+//@   assigns nothing
+
+//@ func (conn *Tunnel) handleDiscReq(req *knxnet.DiscReq) (err error)
+//@   props C09
+//@   ghost nsend lastsend sendsame sendclock
+//@   requires req != nil && conn.sock != nil
+//@   ensures [foreign] req.Channel != conn.channel ==> err != nil && nsend(conn.sock) == old(nsend(conn.sock))
+//@   ensures [answered] req.Channel == conn.channel ==> err == nil && nsend(conn.sock) == old(nsend(conn.sock)) + 1 && typeis(lastsend(conn.sock), *knxnet.DiscRes) && lastsend(conn.sock).(*knxnet.DiscRes).Channel == req.Channel && lastsend(conn.sock).(*knxnet.DiscRes).Status == 0
+//@   assigns nothing
+
+//@ func (conn *Tunnel) handleDiscRes(res *knxnet.DiscRes) (err error)
+//@   props C09
+//@   requires res != nil
+//@   ensures [match] (err == nil) == (res.Channel == conn.channel)
+//@   assigns nothing
+
+//@ func (conn *Tunnel) requestDisc() (err error)
+//@   props C09
+//@   ghost nsend lastsend sendsame sendclock
+//@   requires conn.sock != nil
+//@   ensures [request] nsend(conn.sock) == old(nsend(conn.sock)) + 1 && typeis(lastsend(conn.sock), *knxnet.DiscReq) && lastsend(conn.sock).(*knxnet.DiscReq).Channel == conn.channel && lastsend(conn.sock).(*knxnet.DiscReq).Control == conn.control
+//@   assigns nothing
